@@ -27,6 +27,7 @@ type Scenario struct {
 	PutErrAt      int   `json:"puterrat"`
 	PutPanicAt    int   `json:"putpanicat"`
 	ReplayPanicAt int   `json:"replaypanicat"`
+	PanicKind     string `json:"panickind,omitempty"` // what the replayer panics with: "" a string | error | runtime (a real runtime error)
 	Prefill       int   `json:"prefill,omitempty"`   // publishes made sequentially before anything else starts
 	TTLms         int   `json:"ttlms,omitempty"`     // valid replayer: time-to-live in (virtual) ms; 0 = practically infinite
 	Sleeps        []int `json:"sleeps,omitempty"`    // sleep actions (virtual ms) the scheduler may take, so that buffered events expire
@@ -171,6 +172,7 @@ func genScenario(p profile) func(*rapid.T) Scenario {
 			default:
 				sc.ReplayPanicAt = stats.Pick(t, 3, "replaypanicat")
 			}
+			sc.PanicKind = stats.From(t, []string{"", "error", "runtime"}, "panickind")
 		}
 		if p.prefillBias {
 			sc.Prefill = stats.Pick(t, 3*sc.Cap+1, "prefill")
@@ -197,7 +199,12 @@ func genSmallScenario(p profile) func(*rapid.T) Scenario {
 			sc.Cap = 2 + stats.Pick(t, 2, "cap")
 			sc.Auto = rapid.Bool().Draw(t, "auto")
 		} else {
-			sc.Replayer = "noop"
+			sc.Replayer = stats.From(t, []string{"noop", "noop", "nil"}, "norep")
+		}
+		// small scenarios are cheap to enumerate: give every profile a fair share of failing
+		// subscribers (failures that also cancel are what produces the rare removal paths)
+		if p.faults < 35 {
+			p.faults, p.failCancel = 35, 50
 		}
 		ns := 1 + stats.Pick(t, 2, "nsubs")
 		if p.minSubs > ns {
@@ -210,10 +217,10 @@ func genSmallScenario(p profile) func(*rapid.T) Scenario {
 				s.FailAt = stats.Pick(t, 2, "failat")
 				s.FailCancel = stats.Pct(t, "failcancel") < p.failCancel
 			}
-			if stats.Pct(t, "replayerr") < p.replayErr {
+			if sc.Replayer != "nil" && stats.Pct(t, "replayerr") < p.replayErr {
 				s.ReplayErr = true
 			}
-			if sc.Replayer != "noop" && stats.Pct(t, "resume") < p.resume {
+			if (sc.Replayer == "finite" || sc.Replayer == "valid") && stats.Pct(t, "resume") < p.resume {
 				s.IDKind = stats.From(t, []string{"put", "newest", "never"}, "idkind")
 				s.IDK = stats.Pick(t, 4, "idk")
 			}
@@ -237,7 +244,7 @@ func genSmallScenario(p profile) func(*rapid.T) Scenario {
 				sc.Shutdowns = append(sc.Shutdowns, ShutSpec{Ctx: "live"})
 			}
 		}
-		if stats.Pct(t, "repfault") < p.repFaults {
+		if sc.Replayer != "nil" && stats.Pct(t, "repfault") < p.repFaults {
 			switch stats.Pick(t, 3, "repfaultkind") {
 			case 0:
 				sc.PutErrAt = stats.Pick(t, 2, "puterrat")
@@ -246,8 +253,9 @@ func genSmallScenario(p profile) func(*rapid.T) Scenario {
 			default:
 				sc.ReplayPanicAt = stats.Pick(t, 2, "replaypanicat")
 			}
+			sc.PanicKind = stats.From(t, []string{"", "error", "runtime"}, "panickind")
 		}
-		if sc.Replayer != "noop" {
+		if sc.Replayer == "finite" || sc.Replayer == "valid" {
 			sc.Prefill = stats.Pick(t, 4, "prefill")
 		}
 		sc.WarmSubs = stats.Pick(t, ns+1, "warmsubs")
